@@ -573,6 +573,70 @@ def sc_expiry(rng):
     return "expiry", b.line()
 
 
+def sc_lockpoints(rng):
+    """BIP68-locked children (nSequence 1..3 height type, 512-second units time type) of outputs confirmed in the tip block or
+    one below, then a REAL competing branch of depth 1-2 that removes the funding block and ends at an equal or greater
+    height: the cached LockPoints must be recognised as stale (maxInputBlock includes an input confirmed in the tip block)"""
+    b = B(rng)
+    timed = rng.random() < 0.35
+    if timed:
+        # five blocks 600 s apart, the funding block is the sixth: MTP(tip) - MTP(tip-1) >= 600 > 512
+        t = 0
+        for _ in range(5):
+            t += 600
+            b.mine(t=t)
+        b.btime = t
+        src = rng.choice(b.spendable_conf()[:3])
+        fund = b.tx([(src[0], src[1])], 4, fee=10000)
+        b.mine([fund], t=b.btime + 600)
+        b.btime += 600
+    else:
+        for _ in range(rng.choice([1, 2])):
+            b.mine()
+        fund = fanout(b, 4)
+    fund_h = b.height
+    depth = 1
+    if rng.random() < 0.4:
+        b.mine(t=b.btime + (600 if timed else 1))
+        b.btime += 600 if timed else 1
+        depth = 2
+    # children: the funding output is depth-1 blocks below the next block's parent; lock v is satisfied iff v <= depth
+    kids = []
+    for k in range(rng.choice([1, 2, 3])):
+        if timed and rng.random() < 0.7:
+            v = rng.choice([1, 1, 2]) if depth == 1 else rng.choice([1, 2, 3])
+            sq = str(TYPE_FLAG | v)
+        else:
+            v = rng.choice([1, 1, depth, depth, depth + 1, 3])
+            sq = str(v)
+        c = b.tx([(fund, k)], 2, fee=rng.choice([3000, 8000]), seqs=[sq])
+        b.atmp(c)
+        kids.append(c)
+    if rng.random() < 0.5 and kids:
+        g = b.tx([(kids[0], 0)], 1, fee=2000, seqs=[rng.choice([SEQ_FINAL, "0"])])
+        b.atmp(g)
+    # an unlocked sibling that survives
+    s0 = b.tx([(fund, 3)], 1, fee=4000)
+    b.atmp(s0)
+    # the competing branch starts below the funding block and gets one block longer than the active chain
+    parent = "h%d" % (fund_h - 1)
+    n_new = depth + 1
+    t0 = b.btime + 5
+    include = rng.choice(["none", "none", "first", "second"])
+    prev = parent
+    for i in range(n_new):
+        name = b.name("b")
+        txs = ""
+        if (include == "first" and i == 0) or (include == "second" and i == 1):
+            txs = " " + fund
+        b.op("fork %s %s %d%s" % (name, prev, t0 + i * (600 if timed else 1), txs))
+        prev = name
+    if rng.random() < 0.3:
+        b.op("fork %s %s %d" % (b.name("b"), prev, t0 + n_new * (600 if timed else 1)))
+    b.op("template 4000000 8000 1 400")
+    return "lockpoints", b.line()
+
+
 def sc_package(rng):
     """package submissions (child with its unconfirmed parents): a low-fee parent paid for by the child, two parents, a parent
     already in the pool, a package replacing pool entries, packages that are refused (not child-with-parents, conflicting)"""
@@ -630,11 +694,11 @@ def sc_package(rng):
     return "package", b.line()
 
 
-C22_CLASSES = [sc_maturity, sc_resurrect, sc_conflict, sc_locks, sc_chain, sc_random, sc_package, sc_expiry]
+C22_CLASSES = [sc_lockpoints, sc_maturity, sc_resurrect, sc_conflict, sc_locks, sc_chain, sc_random, sc_package, sc_expiry]
 
 
 def gen_c22(rng, tier):
-    n = 12 if tier == "quick" else 260
+    n = 11 if tier == "quick" else 240
     cases = []
     for f in C22_CLASSES:
         for _ in range(n):
